@@ -11,7 +11,9 @@
 
 #include <G4UIcommand.hh>
 #include <G4UImessenger.hh>
+#include <G4SystemOfUnits.hh>
 #include <bxdecay0_g4/primary_generator_action.hh>
+#include <bxdecay0_g4/unique_point_vertex_generator.hh>
 
 #include "common/vh.h"
 
@@ -20,16 +22,20 @@ static long r10(double x) { return std::lround(x * 10.0); }
 int main()
 {
   std::unique_ptr<bxdecay0_g4::PrimaryGeneratorAction> act;
+  std::unique_ptr<bxdecay0_g4::UniquePointVertexGenerator> upvg;
   std::string line;
   long n = 0;
   // the action and its messenger talk on stderr; keep stdout for the protocol
   while (std::getline(std::cin, line)) {
     if (line == "RESET") {
       act.reset();
+      upvg.reset();
       act.reset(new bxdecay0_g4::PrimaryGeneratorAction(0));
+      upvg.reset(new bxdecay0_g4::UniquePointVertexGenerator);
       continue;
     }
     if (!act) act.reset(new bxdecay0_g4::PrimaryGeneratorAction(0));
+    if (!upvg) upvg.reset(new bxdecay0_g4::UniquePointVertexGenerator);
     int rc = -1;
     std::string exc;
     try {
@@ -38,10 +44,12 @@ int main()
       exc = e.what();
     }
     const auto & c = act->GetConfiguration();
-    printf("{\"n\":%ld,\"rc\":%d,\"exc\":\"%s\",\"changed\":%s,\"verb\":%d,"
+    printf("{\"n\":%ld,\"rc\":%d,\"exc\":\"%s\",\"changed\":%s,\"verb\":%d,\"vtx\":[%ld,%ld,%ld],"
            "\"base\":{\"cat\":\"%s\",\"nuc\":\"%s\",\"seed\":%d,\"mode\":%d,\"level\":%d,\"emin\":%ld,\"emax\":%ld,\"dbg\":%s},"
            "\"mdl\":{\"use\":%s,\"name\":\"%s\",\"rank\":%d,\"lon\":%ld,\"col\":%ld,\"ap\":%ld,\"ap2\":%ld,\"eom\":%s}}\n",
            n++, rc, vh::json_escape(exc).c_str(), act->ConfigHasChanged() ? "true" : "false", (int)act->GetVerbosity(),
+           std::lround(upvg->GetSourcePosition().x() / CLHEP::micrometer), std::lround(upvg->GetSourcePosition().y() / CLHEP::micrometer),
+           std::lround(upvg->GetSourcePosition().z() / CLHEP::micrometer),
            vh::json_escape(c.decay_category).c_str(), vh::json_escape(c.nuclide).c_str(), (int)c.seed, (int)c.dbd_mode, (int)c.dbd_level,
            r10(c.dbd_min_energy_MeV), r10(c.dbd_max_energy_MeV), c.debug ? "true" : "false", c.use_mdl ? "true" : "false",
            vh::json_escape(c.mdl_target_name).c_str(), (int)c.mdl_target_rank, std::lround(c.mdl_cone_longitude), std::lround(c.mdl_cone_colatitude),
